@@ -10,7 +10,7 @@ from runlevel import fnum
 
 
 def eligible(cfg):
-    return cfg.get('adv', 0.0) == 0.0 and cfg.get('hook') == 'observer' and not cfg.get('prior') \
+    return cfg.get('adv', 0.0) == 0.0 and not cfg.get('adv_init') and cfg.get('hook') == 'observer' and not cfg.get('prior') \
         and cfg.get('objective') not in ('weighted',)
 
 
